@@ -122,6 +122,16 @@ def probe_tables():
     return tt, tdt, unthreaded, problems
 
 
+def safe_body_words(fs, problems=None):
+    """body words, or a marker the skeleton obligations cannot match when the text is outside the fragment"""
+    try:
+        return body_words(fs)
+    except (pyfrag.Unsupported, AssertionError, ValueError) as ex:
+        if problems is not None:
+            problems.append(f"{type(ex).__name__}: {str(ex)[:80]}")
+        return ["IUNSUPPORTED_TEXT"]
+
+
 def body_words(fs):
     """function string -> words of the lambda body"""
     i = fs.index(":")
@@ -199,28 +209,28 @@ def probe_skeletons():
     m = scratch()
     out = {}
     s = m.stock("X"); s.initial_value = 1.5; s.equation = PM(0)
-    out["stock"] = body_words(s.function_string)
+    out["stock"] = safe_body_words(s.function_string)
     s0 = m.stock("X0"); s0.initial_value = 2.5
-    out["stock0"] = body_words(s0.function_string)
+    out["stock0"] = safe_body_words(s0.function_string)
     ci = m.constant("CI"); ci.equation = 4.0
     s2 = m.stock("X2"); s2.initial_value = ci; s2.equation = PM(0)
-    out["stock_init_el"] = body_words(s2.function_string)
+    out["stock_init_el"] = safe_body_words(s2.function_string)
     s3 = m.stock("X3"); s3.initial_value = 1.5; s3.equation = 2.0
-    out["stock_num_eq"] = body_words(s3.function_string)
+    out["stock_num_eq"] = safe_body_words(s3.function_string)
     f = m.flow("F"); f.equation = PM(0)
-    out["flow"] = body_words(f.function_string)
+    out["flow"] = safe_body_words(f.function_string)
     b = m.biflow("B"); b.equation = PM(0)
-    out["biflow"] = body_words(b.function_string)
+    out["biflow"] = safe_body_words(b.function_string)
     c = m.converter("C"); c.equation = PM(0)
-    out["converter"] = body_words(c.function_string)
+    out["converter"] = safe_body_words(c.function_string)
     k = m.constant("K"); k.equation = 2.5
-    out["constant"] = body_words(k.function_string)
+    out["constant"] = safe_body_words(k.function_string)
     # smooth / trend helper elements
     import BPTK_Py.sddsl.functions as sd
     m2 = scratch()
     inp = m2.converter("inp"); inp.equation = 3.0
     sm = m2.converter("sm"); sm.equation = sd.smooth(m2, inp, 2.0, 10.0)
-    helpers = {n: body_words(e.function_string) for n, e in list(m2.stocks.items()) + list(m2.biflows.items()) + list(m2.flows.items()) + list(m2.converters.items())}
+    helpers = {n: safe_body_words(e.function_string) for n, e in list(m2.stocks.items()) + list(m2.biflows.items()) + list(m2.flows.items()) + list(m2.converters.items())}
     kinds = {n: type(e).__name__ for d in (m2.stocks, m2.biflows, m2.flows, m2.converters) for n, e in d.items()}
     # trend helper elements (names get the prefix T_ in the generated file)
     m3 = scratch()
@@ -228,7 +238,7 @@ def probe_skeletons():
     tr = m3.converter("tr"); tr.equation = sd.trend(m3, inp3, 2.0, 10.0)
     for d in (m3.stocks, m3.biflows, m3.flows, m3.converters):
         for n, e in d.items():
-            helpers["T_" + n] = body_words(e.function_string)
+            helpers["T_" + n] = safe_body_words(e.function_string)
             kinds["T_" + n] = type(e).__name__
     return out, helpers, kinds
 
@@ -972,9 +982,11 @@ def run(chk):
             ref = reference_euler(spec, times)
         except Exception:
             return False
-        return first_diff(spec, real, ref) is not None
-    def first_diff(spec, real, ref):
-        dy = math.log2(spec["dt"]).is_integer()
+        return first_diff(spec, real, ref, exact=False) is not None
+    def first_diff(spec, real, ref, exact=True):
+        # exact=True: bit-equality is demanded where the arithmetic is exact by construction (dyadic dt); a difference that is
+        # within rounding (rel. 1e-9) is NOT a wrong value — it is reported as a broken exactness tie without failing input
+        dy = exact and math.log2(spec["dt"]).is_integer()
         for n, _, _ in expand_els(spec):
             for k, (a, b) in enumerate(zip(real[n], ref[n])):
                 b = float(b)
@@ -991,6 +1003,8 @@ def run(chk):
         plan += [(d, True) for d in dts for _ in range(40)]
     solveK = 3
     chan_fail = None
+    rounding_only = None
+    unsupported_text = []
     stats.update({"channel_models": 0, "variants": {}, "long_runs": {}, "dsl_rejected": 0, "solveF_checked": 0, "arrayed_models": 0, "steps_max": 0})
     directed = directed_models(dts)
     stats["directed_models"] = len(directed)
@@ -1032,6 +1046,10 @@ def run(chk):
         stats["steps_max"] = max(stats["steps_max"], spec["n"])
         stats["arrayed_models"] += 1 if spec.get("vsize") else 0
         d = first_diff(spec, real, ref)
+        if d is not None and first_diff(spec, real, ref, exact=False) is None:
+            # same trajectory up to rounding (e.g. another exact formula for the interpolation): no accusation
+            rounding_only = rounding_only or (spec, d)
+            d = None
         if d is not None and ref_fail is None:
             ref_fail = (spec, d)
         if spec.get("_second_use_differs") and ref_fail is None:
@@ -1046,14 +1064,21 @@ def run(chk):
                 ch = {}
                 stats.setdefault("channel_errors", []).append(f"{type(ex).__name__}: {str(ex)[:100]}")
             for cname, vals_ in ch.items():
-                dch = first_diff(spec, {n: vals_.get(n, real[n]) for n in real}, ref)
+                dch = first_diff(spec, {n: vals_.get(n, real[n]) for n in real}, ref, exact=False)
                 if len(next(iter(vals_.values()))) != len(times):
                     dch = ("<grid>", len(next(iter(vals_.values()))) - 1, float("nan"), float(len(times) - 1))
                 if dch is not None and chan_fail is None:
                     chan_fail = (spec, cname, dch)
         # driver request
         lines_ = ["reset"]
-        bodies = {n: body_words(fs) for n, fs in strings.items()}
+        try:
+            bodies = {n: body_words(fs) for n, fs in strings.items()}
+        except (pyfrag.Unsupported, AssertionError, ValueError) as ex:
+            # function strings outside the modelled Python fragment (a rewrite of the code generator): the interpreter cannot
+            # read them; the model is still checked against the Euler reference, the broken tie is reported without input
+            unsupported_text.append(f"{type(ex).__name__}: {str(ex)[:80]}")
+            chk.case(json.dumps(spec["els"]) + str(spec["dt"]), nontrivial=True, sample={"dt": spec["dt"], "unsupported_text": True})
+            continue
         lits = set()
         for w in bodies.values():
             lits |= literals_of(w)
@@ -1187,6 +1212,16 @@ def run(chk):
         spec, cname, d = chan_fail
         chk.add_finding("euler-channel:" + cname, f"{cname}: element {d[0]} at grid index {d[1]} reports {d[2]!r}, explicit Euler {d[3]!r} (dt={spec['dt']}, start={spec['start']})",
                         {"spec": json.loads(json.dumps({k: v for k, v in spec.items() if not k.startswith('_')})), "channel": cname, "element": d[0], "index": d[1], "observed": d[2], "expected": d[3]})
+    if (rounding_only or unsupported_text) and ref_fail is None and not input_found:
+        if rounding_only:
+            spec, d = rounding_only
+            chk.add_finding("correspondence", f"values agree with the explicit-Euler reference only up to rounding (element {d[0]} index {d[1]}: {d[2]!r} vs {d[3]!r}); "
+                            "bit-exactness on dyadic grids no longer holds — same trajectory, no wrong value found",
+                            {"correspondence": "bit-exact Euler reference on dyadic dt (exactness tie)", "spec": json.loads(json.dumps({k: v for k, v in spec.items() if not k.startswith('_')})), "first_rounding_difference": list(d)}, found_input=False)
+        if unsupported_text:
+            chk.add_finding("correspondence", f"{len(unsupported_text)} generated models have function strings outside the modelled Python fragment ({unsupported_text[0]}); "
+                            "the Lean interpreter could not be compared; the Euler reference found no wrong value",
+                            {"correspondence": "Drive/C01 (evalM on doubles) vs Element.__call__: text not in the fragment", "detail": unsupported_text[:5]}, found_input=False)
     if not ok and ref_fail is None and not input_found:
         chk.add_finding("obligation", f"proof obligations of C01 no longer check: {why}; unthreaded operands: {unthreaded}",
                         {"theorem": "Bptk.C01.Gen.* (tableOK / shiftOK / skeleton shapes)", "detail": why, "unthreaded": unthreaded}, found_input=False)
